@@ -237,3 +237,69 @@ UNITS.append(import_object_unit("C14"))
 
 from contracts.check_type import typehint_call_unit  # noqa: E402
 UNITS.append(typehint_call_unit("C14"))
+
+
+# subclass_spec_as_namespace, dotted sub-options (--m.K=v, --m.dict_kwargs.K=v, --m.child.K=v arrive as NestedArg(key, value))
+def ssn2_setup(ctx):
+    key = ["k", "class_path", "dict_kwargs.k", "child.k", "init_args.k"][ctx.choose(5, "nested-key")]
+    prev_kind = ["none", "class-path-string", "Namespace-with-class_path"][ctx.choose(3, "prev_val")]
+    v = z3.String("value")
+    prev_cp = z3.String("prev.class_path")
+    prev = {"none": None, "class-path-string": prev_cp, "Namespace-with-class_path": ns({"class_path": prev_cp, "init_args": z3.Int("prev.init_args")})}[prev_kind]
+    ctx.classes.add("NestedArg", ["tuple"])
+
+    def nested(k_, v_):
+        return Rec("NestedArg", attrs={"key": k_, "val": v_}, methods={"__iter__": lambda c, s_, a, k: [s_.attrs["key"], s_.attrs["val"]]})
+
+    def namespace_ctor(c, a, k):
+        if a:
+            src = a[0]
+            if isinstance(src, dict):
+                return ns(dict(src))
+            if isinstance(src, Rec) and "store" in src.attrs:
+                return ns(dict(src.attrs["store"]))
+            raise Unsupported("Namespace(x) of an unmodelled value")
+        return ns(dict(k))
+
+    def is_subclass_spec(c, a, k):
+        x = a[0]
+        keys = list(x.attrs["store"].keys()) if isinstance(x, Rec) and "store" in x.attrs else None
+        return keys is not None and "class_path" in keys and set(keys) <= set(SPEC_KEYS)
+
+    calls = {"Namespace": namespace_ctor, "is_subclass_spec": is_subclass_spec, "NestedArg": lambda c, a, k: nested(k["key"], k["val"])}
+    return Setup(env={"val": nested(key, v), "prev_val": prev}, calls=calls, consts={"NestedArg": ClassRef("NestedArg")}, data=dict(key=key, prev_kind=prev_kind, v=v, prev_cp=prev_cp))
+
+
+def ssn2_post(ctx, st, result):
+    d = st.data
+    tag = f"[--m.{d['key']}=v,prev:{d['prev_kind']}]"
+    got = view(result)
+    ok_ns = isinstance(result, Rec) and result.cls == "Namespace" and isinstance(got, dict)
+    ctx.oblige("post", "result-is-a-Namespace" + tag, ok_ns)
+    if not ok_ns:
+        return
+    has_prev = d["prev_kind"] != "none"
+    key = d["key"]
+    if key == "class_path":
+        ctx.oblige("post", "--m.class_path=v-denotes-{class_path: v}" + tag, list(got) == ["class_path"] and got["class_path"] is d["v"])
+        return
+    if has_prev:
+        ctx.oblige("post", "a-dotted-sub-option-is-completed-with-the-class-chosen-before(given as a spec or as a bare class path)" + tag, got.get("class_path") is d["prev_cp"])
+    else:
+        ctx.oblige("post", "without-a-class-chosen-before-the-sub-option-stays-incomplete(refused later)" + tag, "class_path" not in got)
+    if key == "dict_kwargs.k":
+        ctx.oblige("post", "--m.dict_kwargs.K=v-denotes-dict_kwargs:{K: v}" + tag, isinstance(got.get("dict_kwargs"), dict) and list(got["dict_kwargs"]) == ["k"] and got["dict_kwargs"]["k"] is d["v"] and "init_args" not in got)
+    elif key == "k":
+        inner = got.get("init_args") if has_prev else got
+        inner = view(inner)
+        ctx.oblige("post", "--m.K=v-denotes-init_args:{K: v}-of-the-chosen-class" + tag, isinstance(inner, dict) and inner.get("k") is d["v"] and "dict_kwargs" not in got)
+    else:
+        # a deeper option (--m.child.K=v, --m.init_args.K=v): handed on, as (the rest of the key, v), to the parser of the chosen class
+        ia = got.get("init_args")
+        want_key = key
+        ctx.oblige("post", "a-deeper-dotted-option-is-handed-to-the-chosen-class's-own-parser-as-(key, v)-under-init_args" + tag,
+                   isinstance(ia, Rec) and ia.cls == "NestedArg" and ia.attrs["key"] == want_key and ia.attrs["val"] is d["v"])
+
+
+UNITS.append(Unit("C14", "jsonargparse._typehints:subclass_spec_as_namespace", ssn2_setup, ssn2_post, no_exc, label="dotted-sub-options",
+                  trusted=["NestedArg(key, val) unpacks as (key, val)", "Namespace(mapping) / Namespace(**kw) build a namespace with those items"]))
